@@ -65,7 +65,7 @@ type c10 struct{}
 func init() {
 	register(c10{})
 	expectedProbes["C10"] = []string{"entry:ExpandSchema", "entry:ExpandSchemaWithBasePath", "entry:ExpandParameterWithRoot", "entry:ExpandParameter", "entry:ExpandResponseWithRoot", "entry:ExpandResponse",
-		"root:typed", "root:generic", "cache:lib", "cache:fresh", "cache:prefilled", "cyclic-element", "kept-ref", "external-document-followed", "root-compared", "options-compared", "two-roots-one-cache"}
+		"root:typed", "root:generic", "cache:lib", "cache:fresh", "cache:prefilled", "cyclic-element", "kept-ref", "external-document-followed", "root-compared", "options-compared", "two-roots-one-cache", "no-location-root-from-cache"}
 }
 
 func (c10) ID() string { return "C10" }
@@ -134,6 +134,19 @@ func (c10) Gen(r *sim.RNG, tier string, idx int) *Scenario {
 				o.World = r.Intn(2)
 			}
 			sc.Ops = append(sc.Ops, o)
+			if r.Bool(0.35) {
+				// a call without any location right after: the root registered in the cache by the
+				// call before is the context ("the cache is already preloaded with a root")
+				var defs []string
+				for _, e := range Elements(sc.World) {
+					if strings.HasPrefix(e, "/definitions/") {
+						defs = append(defs, e)
+					}
+				}
+				if len(defs) > 0 {
+					sc.Ops = append(sc.Ops, Op{Entry: "ExpandSchemaWithBasePath", Ptr: defs[r.Intn(len(defs))], Cache: "reuse", World: o.World, Base: "<none>"})
+				}
+			}
 		}
 		sc.Mix = []string{"hcache", "lib"}[r.Intn(2)]
 	}
@@ -226,6 +239,9 @@ func (c10) Run(sc *Scenario) *Verdict {
 			w = w0
 		}
 		store := sim.NewStore(w.Docs, nil)
+		if op.Base == "<none>" {
+			v.probe("no-location-root-from-cache")
+		}
 		if op.Cache == "reuse" {
 			if rootReferencedByURL(w0) {
 				continue // the two roots would also differ as an external document: not the same documents any more
